@@ -18,10 +18,11 @@ theorem segwitEncode_some {hrp prog s : Bytes} {v : Nat} (h : segwitEncode hrp v
   · rename_i d hd
     exact ⟨by omega, by omega, by omega, by omega, d, hd, h⟩
 
-theorem segwit_decode_encode (hrp prog s : Bytes) (v : Nat) (hne : hrp ≠ [])
+theorem segwit_decode_encode (hrp prog s : Bytes) (v : Nat)
     (h : segwitEncode hrp v prog = some s) : segwitDecode hrp s = .ok (v, prog) := by
   obtain ⟨hv, hv0, hl2, hl40, d, hd, he⟩ := segwitEncode_some h
-  have hdec := decode_encode hrp _ s _ hne he
+  have hne : hrp ≠ [] := encode_some_ne he
+  have hdec := decode_encode hrp _ s _ he
   obtain ⟨_, p, hp, hlen, _⟩ := convertBits_85_spec prog d hd
   have hrt := convertBits_roundtrip prog d hd
   have hvn : (UInt8.ofNat v).toNat = v := by
